@@ -1,13 +1,18 @@
 #!/bin/sh
-# tools/seed_pipeline.sh <prop> <n>: ingest /tmp/seed-<prop>-<n>-out as seeded/<prop>-<n> (confirmations), then run the check against it
+# tools/seed_pipeline.sh <prop> <n>: ingest /tmp/seed-<prop>-<n>-out as seeded/<prop>-<k> (first free k >= n;
+# confirmations in a scratch worktree), then run the check against it
 p=$1; n=$2
 cd /verif
-python3 tools/ingest_seed.py /tmp/seed-$p-$n-out $p-$n > /tmp/exp/ingest-$p-$n.log 2>&1 || { echo "INGEST FAILED $p-$n"; tail -30 /tmp/exp/ingest-$p-$n.log; exit 1; }
+k=$n
+while [ -e seeded/$p-$k ] || [ -e /tmp/exp/claim-$p-$k ]; do k=$((k+1)); done
+touch /tmp/exp/claim-$p-$k
+id=$p-$k
+python3 tools/ingest_seed.py /tmp/seed-$p-$n-out $id > /tmp/exp/ingest-$id.log 2>&1 || { echo "INGEST FAILED $id (from /tmp/seed-$p-$n-out)"; tail -30 /tmp/exp/ingest-$id.log; exit 1; }
 git -C /repo worktree remove --force /tmp/seed-$p-$n 2>/dev/null
-python3 tools/try_seed.py $p-$n $p > /tmp/exp/try-$p-$n.log 2>&1
+python3 tools/try_seed.py $id $p > /tmp/exp/try-$id.log 2>&1
 python3 -c "
 import json
-r=json.load(open('seeded/$p-$n/result.json'))
-print('$p-$n', 'demo', r.get('demo_unpatched_rc'), r.get('demo_patched_rc'), 'check_rc', r.get('check_rc'), 'input' if r.get('with_failing_input') else 'no-input', r.get('check_wall_s'))
+r=json.load(open('seeded/$id/result.json'))
+print('$id', 'demo', r.get('demo_unpatched_rc'), r.get('demo_patched_rc'), 'check_rc', r.get('check_rc'), 'input' if r.get('with_failing_input') else 'no-input', r.get('check_wall_s'))
 for l in r.get('check_lines',[]): print('   ', l[:200])
 "
